@@ -9,10 +9,11 @@ Output {"traces": [{"consts": {"handles": [...], "family": ..., "template": ...}
   measures the duration of an operation with time.time()), so "four days, or the total time consumed by the
   operation" can be exercised.  Time only passes in Advance events.
 * Requests are sent through StubTreq WITHOUT driving the grid: remote storage calls stay parked, so an
-  operation makes progress only in Work events (k scheduler steps).  One operation per directory tree at a time,
-  the trees have disjoint storage indexes: an operation has come to its end when no parked call names a
-  storage index of its tree (the traversal is one sequential Deferred chain).  `reached` = number of distinct
-  directories of the tree named by calls parked since the operation started.
+  operation makes progress only in Work events (k units; a unit = every parked call for the storage index of the
+  oldest parked call).  One operation per directory tree at a time, the trees have disjoint storage indexes: at
+  the boundary of a unit an operation has come to its end iff no parked call names a storage index of its tree.
+  `reached` = number of distinct directories of the tree named by calls parked since the operation started.
+* A start without ophandle= (h = "") or on a file (isdir false) must be refused with 400.
 * Abstraction of a status page to [finished, kind, dir, full, listed]: kind from the shape of the page, dir from the
   storage index it reveals (origin / root-storage-index) or from the tree whose synchronous results
   (POST t=stream-manifest, t=stream-deep-check, run once at set-up) equal the page's results; `full` = they do;
